@@ -166,9 +166,14 @@ pub fn apply_event(
             let fc = *fail_cpi;
             let out = rt::exec_tx(ledger, tx, &|i| ExecOpts {
                 fail_cpi_at: fc.and_then(|(ii, k)| if ii == i { Some(k) } else { None }),
-                record_logs: false,
+                record_logs: std::env::var("WPSIM_DEBUG_FAILS").is_ok(),
                 hook_fail: false,
             });
+            if !out.ok && std::env::var("WPSIM_DEBUG_FAILS").is_ok() {
+                if let Some(io) = out.ix_outcomes.last() {
+                    eprintln!("DEBUG fail idx={} tag={} code={:#x} detail={:?} logs={:?} cpis={:?}", idx, tag, io.code, io.detail, io.logs, io.cpis.iter().map(|c| (c.program_id.to_string(), c.data.clone(), c.result)).collect::<Vec<_>>());
+                }
+            }
             let landed = Landed {
                 idx,
                 salt: *salt,
